@@ -190,18 +190,91 @@ func (v *Version) Compare(other *Version) int {
 // This implements the Arch Linux vercmp algorithm based on the precedence:
 // 1.0a < 1.0b < 1.0beta < 1.0p < 1.0pre < 1.0rc < 1.0 < 1.0.a < 1.0.1
 func compareALMPVersionString(a, b string) int {
-	// Handle the specific documented precedence cases first
+	// Port of libalpm's rpmvercmp (lib/libalpm/version.c).
 	if a == b {
 		return 0
 	}
 
-	// Check if this is a direct suffix comparison (no dots separating)
-	if isDirectSuffixComparison(a, b) {
-		return compareDirectSuffixes(a, b)
+	isDigit := func(c byte) bool { return c >= '0' && c <= '9' }
+	isAlpha := func(c byte) bool { return (c >= 'a' && c <= 'z') || (c >= 'A' && c <= 'Z') }
+	isAlnum := func(c byte) bool { return isDigit(c) || isAlpha(c) }
+
+	i, j := 0, 0
+	for i < len(a) && j < len(b) {
+		// Skip separators (everything that is not alphanumeric)
+		iSep, jSep := i, j
+		for i < len(a) && !isAlnum(a[i]) {
+			i++
+		}
+		for j < len(b) && !isAlnum(b[j]) {
+			j++
+		}
+
+		// If we ran to the end of either, we are finished with the loop
+		if i >= len(a) || j >= len(b) {
+			break
+		}
+
+		// If the separator lengths were different, we are also finished
+		if i-iSep != j-jSep {
+			if i-iSep < j-jSep {
+				return -1
+			}
+			return 1
+		}
+
+		// Grab the first completely alpha or completely numeric segment
+		iStart, jStart := i, j
+		numeric := isDigit(a[i])
+		if numeric {
+			for i < len(a) && isDigit(a[i]) {
+				i++
+			}
+			for j < len(b) && isDigit(b[j]) {
+				j++
+			}
+		} else {
+			for i < len(a) && isAlpha(a[i]) {
+				i++
+			}
+			for j < len(b) && isAlpha(b[j]) {
+				j++
+			}
+		}
+		aSeg, bSeg := a[iStart:i], b[jStart:j]
+
+		// The two segments are of different types: numeric segments are newer than alpha ones
+		if bSeg == "" {
+			if numeric {
+				return 1
+			}
+			return -1
+		}
+
+		var cmp int
+		if numeric {
+			cmp = compareALMPDigits(aSeg, bSeg)
+		} else {
+			cmp = strings.Compare(aSeg, bSeg)
+		}
+		if cmp != 0 {
+			return cmp
+		}
 	}
 
-	// Otherwise use standard segment-by-segment comparison
-	return compareSegmentBySegment(a, b)
+	// All segments compared identically (only the separators may have differed)
+	if i >= len(a) && j >= len(b) {
+		return 0
+	}
+
+	// The final showdown: a remaining alpha string never beats an empty string.
+	// - if a is exhausted and the rest of b is not alpha, b is newer
+	// - if the rest of a is alpha, b is newer
+	// - otherwise a is newer
+	if (i >= len(a) && !isAlpha(b[j])) || (i < len(a) && isAlpha(a[i])) {
+		return -1
+	}
+	return 1
 }
 
 // isDirectSuffixComparison checks if we're comparing like "1.0" vs "1.0rc"
